@@ -20,6 +20,14 @@ STRENGTHENED = [
  ("C03r2-B", "king capturing an unmoved corner rook leaves the victim's castling right", "the explorer replaces a wrong successor by the rebuilt twin before the state oracles run (anti-cascade), so only C02 reported it", "C03 reports `stale:played-successor-not-equal-to-rebuilt`; C01 runs its generator oracle on the played board (`on-played-board:*`) before switching to the twin"),
  ("C01r2-A", "move-list capacity 18 -> 17", "undefined behaviour in the shipped flavour killed the check process (SIGSEGV, exit 139)", "every main-process check installs a fatal-signal handler that prints VIOLATION and writes a replay naming the case in progress (`fatal-signal-in-implementation`)"),
  ("C01r2-B", "the move code does not set the ep marker when every adjacent enemy pawn is pinned", "history-dependent: the parser sets the marker, so only the board reached by PLAYING the double push lacks the capture; the anti-cascade replacement hid it from C01", "`on-played-board:*` oracle + new family `EpPlayed` (the positions one ply before every `Ep` member, only the double push is played)"),
+ ("C10r2-B", "castling dropped by `legals_masked` when the mask holds a castling destination but none of the king's neighbour squares", "no generation mask had that shape", "C10 generates under every single-square mask, every all-but-one-square mask and the castling-destinations mask"),
+ ("C11r2-A", "a stale best move of the PREVIOUS search is returned when one Engine is reused for another position", "every search used a fresh Engine", "C11 searches position A to completion and then position B with every expiry point on one Engine, for neighbouring catalogue positions and pairs that share a movable piece's square"),
+ ("C11r2-B", "forced-move roots return no move at periodic expiry polls (two cooperating edits)", "the catalogue had no root with exactly one legal move and an ongoing game", "all kings+1 positions with exactly one legal move (strided) and four hand-built forced-move roots, swept over eight passes"),
+ ("C11r2-C", "`unwrap()` inside a log statement that is only evaluated when a tracing subscriber is installed", "the harness installs no subscriber", "C11 repeats a reduced sweep in a child process with a DEBUG-level subscriber (`with-logging-enabled:*`)"),
+ ("C12r2-A", "insufficient-material shortcut (bishop colour computed from the file parity) fires on a capture that mates", "no family had a capture-mate into a minors-only ending", "new reference-selected family: capture-mates that leave kings and minor pieces"),
+ ("C12r2-C", "first pass tries the queen promotion first through `remove_move`, which removes all four promotions (F12), so a knight-promotion mate is not searched", "no family had a mate that only an under-promotion delivers", "new reference-selected families: promotion-only mates and knight-under-promotion mates where the queen promotion does not mate"),
+ ("C15r2-B", "`Board::eq` compares cached pin/checker sets + the parser clears pins in double check (two cooperating edits)", "needs a set_board position that is a double check with a pinned piece, repeated through a cycle", "two scenario roots added (double check with a pinned rook, and one ply before it); C15 plays up to 8 four-ply cycles through every catalogue root three times"),
+ ("C15r2-C", "the plugin applies its own last suggestion unchecked, and set_board does not forget it", "suggestions were never submitted back", "`SubmitSuggestion` operation: the proposal is submitted at once, after other moves, and after a set_board to another position"),
  ("C01r2-C", "ep legality computed once with all capturers removed", "needs two capturers plus a pin / rank geometry; the quick `Ep` family had one capturer", "`Ep` level 0 now includes the two-capturer members"),
 ]
 
